@@ -112,6 +112,17 @@ FpLex(lex) ==
     [] lex = ".5" -> <<"0x1p-1", "0x1p-1">>
     [] lex = "5." -> <<"0x1.4p+2", "0x1.4p+2">>
     [] lex = "0.1" -> <<"0x1.99999ap-4", "0x1.999999999999ap-4">>
+    \* leading zeros (decimal in XML, whatever C++ makes of them) and integer-looking
+    \* lexemes that binary32 / binary64 cannot represent exactly (round to nearest even)
+    [] lex = "010" -> <<"0x1.4p+3", "0x1.4p+3">>
+    [] lex = "007.50" -> <<"0x1.ep+2", "0x1.ep+2">>
+    [] lex = "-0012" -> <<"-0x1.8p+3", "-0x1.8p+3">>
+    [] lex = "08" -> <<"0x1p+3", "0x1p+3">>
+    [] lex = "00.125" -> <<"0x1p-3", "0x1p-3">>
+    [] lex = "16777217" -> <<"0x1p+24", "0x1.000001p+24">>
+    [] lex = "123456789" -> <<"0x1.d6f346p+26", "0x1.d6f3454p+26">>
+    [] lex = "-9007199254740993" -> <<"-0x1p+53", "-0x1p+53">>
+    [] lex = "18446744073709551615" -> <<"0x1p+64", "0x1p+64">>
     [] lex = "3.4028234663852886e+38" -> <<"0x1.fffffep+127", "0x1.fffffep+127">>
     [] lex = "-3.4028234663852886e+38" -> <<"-0x1.fffffep+127", "-0x1.fffffep+127">>
     [] lex = "1.17549435e-38" -> <<"0x1p-126", "0x1.fffffff9fdba8p-127">>
